@@ -691,3 +691,17 @@ def is_dec_digit(ch):
     if isinstance(ch, str):
         return unicodedata.decimal(ch, None) is not None
     return mk(tobool(core.ENG.domain.is_digit(ch.cs[0])))
+
+
+def dec_value(ch):
+    """value of a decimal digit character (dual-mode)"""
+    if isinstance(ch, str):
+        return unicodedata.decimal(ch)
+    return symint(core.ENG.domain.digit_val(ch.cs[0]))
+
+
+def is_hex_digit(ch):
+    if isinstance(ch, str):
+        return len(ch) == 1 and ch in '0123456789abcdefABCDEF'
+    c = ch.cs[0]
+    return mk(z3.Or(z3.And(c >= 48, c <= 57), z3.And(c >= 65, c <= 70), z3.And(c >= 97, c <= 102)))
